@@ -58,6 +58,8 @@ class _Coroutiniser(ast.NodeTransformer):
 
   # ---- which calls become `yield from` ----
   def _is_target_call(self, node):
+    if isinstance(node, ast.Call) and isinstance(node.func, ast.Name):
+      return node.func.id in self.targets          # module-level target called by its bare name
     if not isinstance(node, ast.Call) or not isinstance(node.func, ast.Attribute):
       return False
     if node.func.attr not in self.call_targets:
